@@ -3,10 +3,127 @@ import json, os, sys
 import vf, codecdrv
 
 
+LIVE_MANAGERS = ["carbons2", "mam", "pubsub", "blocking", "upload", "extdisco", "mix", "receipts", "time", "muc", "bookmarks", "attention", "jmi", "callinvite", "rpc", "registration", "archive",
+                 "location", "tune", "moved", "uploadrequest", "transfer"]
+
+
+def live_sessions(docs, batch):
+    import wire
+    steps = [wire.client(managers=LIVE_MANAGERS)] + wire.login_sasl(sm=False, roster=True) + [dict(op="wait_signal", name="connected")]
+    for i in range(0, len(docs), batch):
+        for d in docs[i:i + batch]:
+            steps.append(wire.S(d))
+        steps.append(dict(op="fence"))
+    return dict(steps=steps, timeout=6000, stopOnStall=True)
+
+
+def live_worker(args):
+    """connected-client half: mutated stanzas are sent to a logged-in client with every bundled manager; after each batch a ping fence must be answered"""
+    import collections, wire
+    wid, docs, per_session, batch = args
+    binary = vf.build_harness("wire")
+    stats, viol, inconc = collections.Counter(), [], []
+    sessions = [docs[i:i + per_session] for i in range(0, len(docs), per_session)]
+    closers = []
+
+    def run(sess_list, b):
+        outs, crashes = wire.run_cases(binary, [live_sessions(s, b) for s in sess_list])
+        crashed = {rq["n"]: info for rq, info in crashes}
+        res = []
+        for i, s in enumerate(sess_list):
+            out = outs[i]
+            if i in crashed or not out:
+                res.append(("crash", crashed.get(i), 0))
+                continue
+            j = out["journal"]
+            fences = sum(1 for e in j if e["ev"] == "fence_done")
+            need = (len(s) + b - 1) // b
+            if fences >= need:
+                res.append(("ok", None, fences))
+            else:
+                fail = [e for e in j if e["ev"] == "await_failed"][-1:]
+                closed = bool(fail and fail[0].get("closed")) or any(e["ev"] == "cli_sig" and e["name"] == "disconnected" for e in j)
+                res.append(("closed" if closed else "stall", None, fences))
+        return res
+
+    stats["stanzas_sent"] = len(docs)
+    for _round in range(40):
+        if not sessions:
+            break
+        nxt = []
+        for s, (kind, info, fences) in zip(sessions, run(sessions, batch)):
+            stats["fences_answered"] += fences
+            if kind == "ok":
+                stats["sessions_ok"] += 1
+                stats["stanzas_survived"] += len(s)
+                continue
+            stats["sessions_" + kind] += 1
+            stats["stanzas_survived"] += fences * batch
+            bad = s[fences * batch:(fences + 1) * batch] if kind != "crash" else s     # (no journal survives a crash)
+            rest = s[(fences + 1) * batch:] if kind != "crash" else []
+            if rest:
+                nxt.append(rest)      # the stanzas behind the batch that ended the session go into a fresh session
+            # isolate: every stanza of the batch alone in a fresh session
+            singles = [[d] for d in bad]
+            found = False
+            for d, (k2, info2, _) in zip(singles, run(singles, 1)):
+                if k2 == "crash":
+                    found = True
+                    viol.append(("live crash " + vf.crash_sig(info2), "sanitizer report / abnormal exit of a connected client after one well-formed stanza", {"stanza": d[0][:6000], "stderr": info2["stderr"][-3000:] if info2 else ""}))
+                elif k2 == "stall":
+                    found = True
+                    viol.append(("live client-unresponsive", "a connected client stops answering pings after one well-formed stanza (no disconnect either)", {"stanza": d[0][:6000]}))
+                elif k2 == "closed":
+                    found = True
+                    stats["stanzas_that_make_the_client_disconnect"] += 1
+                    if len(closers) < 5:
+                        closers.append(d[0][:300])
+                else:
+                    stats["stanzas_survived"] += 1
+            if not found:
+                if kind == "crash":
+                    viol.append(("live crash-not-isolated " + vf.crash_sig(info), "the client died during a session of well-formed stanzas; no single stanza reproduces it", {"stderr": info["stderr"][-3000:] if info else "", "stanzas": [x[:500] for x in bad[:50]]}))
+                else:
+                    inconc.append("live session %s at a batch whose stanzas are harmless one by one" % kind)
+        sessions = nxt
+    stats["closers_sample"] = 0
+    return viol, dict(stats), inconc, closers
+
+
+def live_half(V, tier, binary):
+    import collections
+    n = 6000 if tier == "quick" else 400000
+    W = vf.NPROC
+    per = n // W + 1
+    outs = vf.pmap(lambda w: vf.run_proc([binary, "emit", codecdrv.SEEDS, str(vf.SEED), str(w), str(per)], timeout=3600, env=vf.env_for()), list(range(W)))
+    docs = []
+    for o in outs:
+        if o["rc"] != 0:
+            raise vf.HarnessFailure("codec emit failed: %s" % o["err"][-2000:])
+        docs.append([d["xml"] for d in vf.jsonl(o["out"])])
+    from concurrent.futures import ProcessPoolExecutor
+    with ProcessPoolExecutor(max_workers=W) as pool:
+        res = list(pool.map(live_worker, [(w, docs[w], 200, 20) for w in range(W)]))
+    stats = collections.Counter()
+    closers = []
+    for viol, st, inconc, cl in res:
+        for sig, what, w in viol:
+            V.violation(sig, what, w)
+        for i in inconc:
+            V.inconc(i)
+        stats.update(st)
+        closers += cl
+    out = dict(stats)
+    out.pop("closers_sample", None)
+    out["sample_of_stanzas_after_which_the_client_closes_the_stream (not judged: IQs without a valid type)"] = closers[:6]
+    return out
+
+
 def main(tier, replay=None):
     V = vf.Verdict("C02", tier)
     binary = vf.build_harness("codec")
     W = vf.NPROC
+    codecdrv.SIB = 1 if tier == "quick" else 6
     if replay:
         w = json.load(open(replay))["witness"]
         args = w["harness_args"] + ([str(w["case"])] if w.get("case") is not None and len(w["harness_args"]) == 5 else [])
@@ -21,7 +138,7 @@ def main(tier, replay=None):
     jobs = [("c02", codecdrv.SEEDS, vf.SEED, w, ncases) for w in range(W)]
     res = vf.pmap(lambda a: (a, codecdrv.run_worker_restarting(binary, a, timeout=7200 if tier == "quick" else 28000, heavy=(tier != "quick"))), jobs)
     parsers, ops = {}, {}
-    apps = cases = 0
+    apps = cases = sibc = 0
     samples = []
     for args, (viols, sums, crashes) in res:
         for o in viols:
@@ -35,6 +152,7 @@ def main(tier, replay=None):
             codecdrv.add_crash(V, crash, args, "c02 worker %s" % args[3])
         for summary in sums:
             apps += int(summary["applications"])
+            sibc += int(summary.get("systematic_sibling_cases", 0))
             cases += int(summary["cases"])
             for k, v in summary["parsers"].items():
                 p = parsers.setdefault(k, [0, 0, 0])
@@ -44,13 +162,17 @@ def main(tier, replay=None):
                 ops[k] = ops.get(k, 0) + int(v)
         if not sums and not crashes:
             raise vf.HarnessFailure("codec worker produced no summary")
+    live = live_half(V, tier, binary)
+    apps += live.get("stanzas_sent", 0)
     if not samples:
         samples.append({"note": "no violation; per-parser counters in 'parsers' = [admitted, parsed, fixpoint-confirmed]"})
     never = [k for k, v in parsers.items() if v[1] == 0 and k != "StreamErrorElement"]
     cov = {"evaluations": apps, "distinct_nontrivial": sum(v[2] for v in parsers.values()),
-           "rule": "seed documents lifted from the test-suite, 0-3 DOM mutations each (16 operators: delete/duplicate/reorder/move/re-namespace/strip/empty/hostile numbers and strings/deep nesting/huge text/cross-breeding/rename/unknown children/many siblings); "
+           "rule": "seed documents lifted from the test-suite, 0-3 DOM mutations each (17 operators: delete/duplicate/reorder/move/re-namespace incl. hostile URIs/strip/empty/hostile numbers and strings/deep nesting/huge text/cross-breeding/rename/unknown children/many siblings/sibling from the same vocabulary), plus a systematic pass that gives every element of every seed document a sibling from its own namespace's vocabulary (1 quick / 6 thorough per element); "
                    "every registered parser applied to every element its own type check admits (parsers without a type check to all); distinct_nontrivial = applications whose output was re-parsed and confirmed a fixpoint",
-           "mutated_elements": cases, "parsers": parsers, "mutation_operators": ops, "parsers_that_never_parsed": never, "samples": samples}
-    floors = {"applications": apps > 1000, "parsers_reached": (len(never) == 0) if tier != "quick" else (len(never) <= 0.1 * len(parsers)), "all_operators_used": len(ops) == 16}
+           "mutated_elements": cases, "systematic_sibling_cases": sibc, "parsers": parsers, "mutation_operators": ops, "parsers_that_never_parsed": never, "samples": samples,
+           "connected_client": dict(live, rule="mutated stanzas (same mutators; payload seeds wrapped into message/presence/iq of every type; from/to rewritten to own/server/contact/room addresses half of the time) sent by the scripted server to a logged-in "
+                                              "QXmppClient with %d managers under ASan/UBSan, 20 per ping fence; a failed batch is re-run stanza by stanza in fresh sessions" % (len(LIVE_MANAGERS) + 4))}
+    floors = {"applications": apps > 1000, "parsers_reached": (len(never) == 0) if tier != "quick" else (len(never) <= 0.1 * len(parsers)), "all_operators_used": len(ops) == 17, "live_stanzas_survived": live.get("stanzas_survived", 0) >= 0.8 * max(1, live.get("stanzas_sent", 0))}
     V.finish(cov, "exploration", ["Qt's XML reader/writer and DOM are trusted (well-formedness is judged with them)", "nesting depth <= 2000 and text <= 1 MiB",
                                   "uninitialised reads are outside ASan/UBSan's reach"], floors)
